@@ -332,6 +332,10 @@ func same(before []byte, s *bsiState) string {
 	return "changed"
 }
 
+type plainReader struct{ r *bytes.Reader }
+
+func (p plainReader) Read(b []byte) (int, error) { return p.r.Read(b) }
+
 func newLike(s *bsiState) *bsiState {
 	if s.is64 {
 		if s.b64.MaxValue != 0 || s.b64.MinValue != 0 {
@@ -794,7 +798,8 @@ func init() {
 			t = u
 			delete(e.bsis, a[2])
 		}
-		rn, err := t.b64.ReadFrom(bytes.NewReader(append([]byte{}, buf.Bytes()...)))
+		// a plain io.Reader (no ReadByte, no WriteTo), as a file or a socket is
+		rn, err := t.b64.ReadFrom(plainReader{bytes.NewReader(append([]byte{}, buf.Bytes()...))})
 		if err != nil {
 			return "err:read"
 		}
